@@ -1,17 +1,30 @@
 //! C08 — vehicle energy and battery state follow the powertrain model along a route.
-//! Correspondence: the real `EnergyTraversalModel` (built through `EnergyTraversalModel::new`, hence
+//! Correspondence, two constructions of the real code:
+//! (a) in-process: the real `EnergyTraversalModel` (built through `EnergyTraversalModel::new`, hence
 //! through the real `update_from_query`) over the real `SpeedTraversalModel` (speed table, real
 //! `get_max_speed`) and the real ICE / BEV / PHEV vehicle types with real `PredictionModelRecord`s
 //! (optionally with the real `FloatCachePolicy`) whose `PredictionModel` is a stub that is affine in
-//! speed and grade; the state model is built as `SearchApp::build_search_instance` builds it (real
-//! `collect_features` over the query's `state_features`, then `StateModel::extend`).  The state after
+//! speed and grade;
+//! (b) configured, the way the application builds it: `EnergyModelBuilder::build(config)` — the registered
+//! `SpeedLookupBuilder` over a speed-table file, the grade-table file, `VehicleBuilder::{ICE,BEV,PHEV}`
+//! over smartcore model files (`load_prediction_model`, `find_min_energy_rate`, cache from
+//! `float_cache_policy`), `EnergyModelService::new` — then `service.build(query)` selecting the vehicle by
+//! `model_name` (known, unknown, absent, not a string).  The builders cannot take a stub predictor, so
+//! the model files are small trained forests and the bundled vehicle models; the real model's answers
+//! (collected by an in-process twin of the case around the same files) reach the Lean model as data.
+//! In both, the state model is built as `SearchApp::build_search_instance` builds it (real
+//! `collect_features` over the query's `state_features`, then `StateModel::extend`); the state after
 //! every `traverse_edge`, `best_case_energy`, `best_case_energy_state` and the real
 //! `estimate_traversal` (its great-circle distance, computed by the real haversine code, is handed to
-//! the model as data) are compared bit for bit with the Lean model.
+//! the model as data; a rejected coordinate is an error outcome) are compared bit for bit with the Lean
+//! model.  `energy_model_ops::get_headings` has its own small family.
 //! Oracle (independent of the model): start charge = query value, rejection outside [0,100], charge
 //! within [0,100] after every edge, unclamped step = -100 E / capacity, clamp direction, per-edge energy =
 //! rate(edge speed, edge grade) x adjustment x length (hand-written SI factors), additivity, PHEV switch,
-//! best-case energy (direct and through estimate_traversal).
+//! best-case energy (direct and through estimate_traversal); for configured cases the same statements
+//! with the CONFIGURED values (keys builder/battery-capacity, builder/starting-soc, builder/ideal-rate,
+//! builder/real-world-adjustment, builder/prediction-record, service/vehicle-selection) and agreement with
+//! the in-process twin (builder/in-process-twin).
 use crate::ctx::{fbits, Ctx};
 use crate::rng::Rng;
 use routee_compass_core::model::network::{Edge, Vertex};
@@ -526,10 +539,12 @@ struct Outcome {
     /// state after `estimate_traversal` from `last` (None: error)
     est: Option<Obs>,
     engine_rejected: bool,
+    /// configured battery vehicle: the initial charge its builder gives it before any query
+    built_soc: Option<f64>,
 }
 
 fn empty_outcome() -> Outcome {
-    Outcome { rejected: false, init: Obs::default(), steps: vec![], last: Obs::default(), bc: None, bcs: Obs::default(), est: None, engine_rejected: false }
+    Outcome { rejected: false, init: Obs::default(), steps: vec![], last: Obs::default(), bc: None, bcs: Obs::default(), est: None, engine_rejected: false, built_soc: None }
 }
 
 /// the query: `model_name`, `starting_soc_percent`, `state_features`
@@ -732,6 +747,27 @@ fn execute_cfg(sp: &Spec, c: &CfgSpec, idx: usize) -> (String, Outcome) {
             return ("engine_rejected".to_string(), out);
         }
     };
+    // the vehicle the query names, as its builder leaves it (before any query): a battery vehicle starts full
+    let named = match &c.name {
+        NameQuery::Name(k) => c.library.iter().rev().find(|(id, _)| id == k),
+        _ => None,
+    };
+    let built = match named {
+        Some((id, v)) if v.kind != Kind::Ice => {
+            use routee_compass::app::compass::config::traversal_model::energy_model_vehicle_builders::VehicleBuilder;
+            let ty = match v.kind { Kind::Ice => "ice", Kind::Bev => "bev", Kind::Phev => "phev" };
+            let vehicle = VehicleBuilder::from_string(ty.to_string()).expect("vehicle type").build(&cfg_vehicle_json(*id, v)).expect("vehicle builds");
+            let soc = vehicle
+                .state_features()
+                .into_iter()
+                .find(|(n, _)| n == "battery_state")
+                .map(|(_, f)| f.get_initial().expect("initial").0)
+                .expect("battery_state feature");
+            out.built_soc = Some(soc);
+            format!("built {} | ", fbits(soc))
+        }
+        _ => "built - | ".to_string(),
+    };
     let name = match &c.name {
         NameQuery::Absent => None,
         NameQuery::NonString => Some(serde_json::json!(17)),
@@ -742,10 +778,12 @@ fn execute_cfg(sp: &Spec, c: &CfgSpec, idx: usize) -> (String, Outcome) {
         Ok(m) => m,
         Err(_) => {
             out.rejected = true;
-            return ("rejected".to_string(), out);
+            return (format!("{}rejected", built), out);
         }
     };
-    drive(sp, model, None, &conf, &Probes::new())
+    let (line, mut oc) = drive(sp, model, None, &conf, &Probes::new());
+    oc.built_soc = out.built_soc;
+    (format!("{}{}", built, line), oc)
 }
 
 /// the route, the best case and the estimate on a built model
@@ -919,6 +957,12 @@ fn oracle_inner(ctx: &mut Fails, idx: usize, sp: &Spec, oc: &Outcome, twin: Opti
                 ctx.fail(idx, "service/vehicle-selection", format!("model_name {:?} names no vehicle of the library {:?} but a model was built", c.name, c.library.iter().map(|(id, _)| *id).collect::<Vec<_>>()));
             }
             return;
+        }
+    }
+    // --- a configured battery vehicle starts full
+    if let Some(b) = oc.built_soc {
+        if b != 100.0 {
+            ctx.fail(idx, "builder/starting-soc", format!("the vehicle builder gives the vehicle an initial charge of {} percent (capacity {} {})", b, sp.cap, sp.bunit));
         }
     }
     // --- rejection of the starting charge
@@ -1798,7 +1842,7 @@ pub fn run(ctx: &mut Ctx) -> &'static str {
                 // the two constructions of the real code must agree (the speed file reader alone rejects
                 // a negative speed, the in-process engine is a struct literal)
                 let valid_name = matches!(&cfg.name, NameQuery::Name(k) if cfg.library.iter().any(|(id, _)| id == k));
-                if valid_name && !sp.speeds.iter().any(|x| *x < 0.0) && strip_direct(&twin_out) != out {
+                if valid_name && !sp.speeds.iter().any(|x| *x < 0.0) && strip_direct(&twin_out) != out.splitn(2, " | ").nth(1).unwrap_or("") {
                     ctx.fail(idx, "builder/in-process-twin", format!("the model built from configuration gives `{}` where the same vehicle constructed in-process gives `{}`", out.chars().take(300).collect::<String>(), strip_direct(&twin_out).chars().take(300).collect::<String>()));
                 }
             }
